@@ -372,7 +372,10 @@ pub fn run(tier: Tier) -> Report {
         }
     }
     rep.extra("rejected_requests", json!(rejected.len()));
-    for (i, (key, what, replay)) in repeated_calls().into_iter().enumerate() {
+    crate::engine::logging(true);
+    let with_logging = repeated_calls();
+    crate::engine::logging(false);
+    for (i, (key, what, replay)) in repeated_calls().into_iter().chain(with_logging.into_iter().map(|(k, w, r)| (k, format!("{} [library logging at level Trace]", w), r))).enumerate() {
         rep.violation(Violation { key, ord: 5_000_000 + i as u64, what, replay });
     }
     rep.evaluations += 33;
